@@ -152,6 +152,8 @@ def gen_histories(ck, n, steps, cxx=False):
         tok = 0
         nid = rng.choice([3, 6, 12, 20])
         ids = [limbs(rng.choice([k + 1, k + 1, 200 + k, (1 << 32) + k, (1 << 63) + k])) for k in range(nid)]
+        if rng.random() < 0.3:
+            ids.append(limbs(0))        # id 0 can be registered like any other
         texts = [[ord(ch) for ch in t] for t in rng.sample(TEXTS, rng.randrange(1, 5))]
 
         def hr():
@@ -188,7 +190,7 @@ def gen_histories(ck, n, steps, cxx=False):
                 i = rng.choice(ids + [limbs(k) for k in (1, 2, 3, 4, 5)])
                 beh.append({"a": "emit", "arg": dict(id=i, **hr())})
             elif op == "emitmsg":
-                data = [] if rng.random() < 0.05 else [rng.choice([1, 2, 3, 4, 5, 6, 200, 201])] + \
+                data = [] if rng.random() < 0.05 else [rng.choice([0, 1, 2, 3, 4, 5, 6, 200, 201])] + \
                     [rng.randrange(256) for _ in range(rng.randrange(4))]
                 beh.append({"a": "emitmsg", "arg": dict(data=data, **hr())})
             elif op == "emitnone":
